@@ -147,8 +147,9 @@ func baseName(n string) string {
 
 func lockName(n string) string {
 	n = baseName(n)
-	if i := strings.Index(n, ".preserve@"); i > 0 {
-		n = n[:i+len(".preserve")]
+	// drop the site suffix (source text of the call or the back edge): the lock pins clauses
+	if i := strings.Index(n, "@"); i > 0 {
+		n = n[:i]
 	}
 	return n
 }
@@ -581,6 +582,12 @@ func cmdFunc(args []string) int {
 	bad := 0
 	for _, o := range res.Obls {
 		fmt.Printf("  %-8s %-7s %6.2fs [%s] %s\n", o.Result.Status, o.Result.Solver, o.Result.Secs, strings.Join(o.Tags, ","), o.Name)
+		if d := os.Getenv("GOCV_DUMP_MATCH"); d != "" && strings.Contains(o.Name, d) {
+			p := filepath.Join(verifDir, ".work", sanitize(o.Name)+".smt2")
+			os.WriteFile(p, []byte(o.Query()), 0o644)
+			os.WriteFile(p+".pc", []byte(o.smt.Query(o.prefix, o.pc)), 0o644)
+			fmt.Println("    query:", p)
+		}
 		if o.Result.Status != "unsat" {
 			bad++
 			if *dump {
@@ -642,7 +649,7 @@ func cmdLock(args []string) int {
 		}
 	}
 	var out []string
-	out = append(out, "# property obligation-name (clause-level obligations that must still be generated; site obligations are not pinned)")
+	out = append(out, "# property obligation-name (clause-level obligations that must still be generated at least once: postconditions, invariants, site clauses, tagged callee preconditions)")
 	for _, p := range sortedKeys(props) {
 		names := map[string]bool{}
 		for _, c := range functionsFor(prog, p) {
@@ -654,8 +661,11 @@ func cmdLock(args []string) int {
 			sel, _ := selectObligations(fr, p)
 			for _, o := range sel {
 				switch o.Kind {
-				case "ensures", "inv.entry", "inv.preserve":
+				case "ensures", "inv.entry", "inv.preserve", "site", "call.requires":
 					n := lockName(o.Name)
+					if o.Kind == "call.requires" && p == "C10" {
+						continue // panic-freedom preconditions follow the code; only semantic call requirements are pinned
+					}
 					if hasTag(o.Tags, p) {
 						names[n] = true
 					}
